@@ -93,3 +93,212 @@ def whole_file(rng, ann=None, sort=None, contigs=None, n_data=None, header=None,
     if rng.random() < 0.3:
         lines = [l + rng.choice(["\n", "\r\n", "", "\n"]) for l in lines]
     return lines
+
+
+# ------------------------------------------------------------------ files on disk, every reader factory, every consumption style
+# (additive: used by C16 / C17 / C19; nothing above depends on it)
+# characters str.splitlines() breaks on although they do not end a line of a text file
+LINEBREAKISH = ["\x0b", "\x0c", "\x1c", "\x1d", "\x1e", "\x85", "\u2028", "\u2029"]
+# other characters that tend to be special-cased by text handling (NUL, Ctrl-Z, DEL, BOM, zero-width / no-break space)
+ODD_CHARS = ["\x00", "\x1a", "\x7f", "\ufeff", "\u200b", "\xa0", "\x1f", "\x08"]
+TERMINATORS = ["\n", "\r\n", "\r"]
+READER_VIAS = ["list", "iter", "path", "gz"]
+CONSUME_STYLES = ["for", "next", "iter"]
+
+
+def inject_chars(rng, lines, chars, n=None):
+    """Copies of `lines` with `n` (default 1..3) characters of `chars` inserted at random places (inside a field, at
+    the start / end of a field or of a line) of random lines, the column line and pragmas included."""
+    out = list(lines)
+    if not out:
+        return out
+    for _ in range(rng.randrange(1, 4) if n is None else n):
+        k = rng.randrange(len(out))
+        l = out[k]
+        body = l.rstrip("\r\n")
+        pos = rng.choice([0, len(body), rng.randrange(len(body) + 1), rng.randrange(len(body) + 1)])
+        if body.startswith("#") and pos == 0:
+            pos = len(body)                        # keep a pragma a pragma
+        out[k] = body[:pos] + rng.choice(chars) + body[pos:] + l[len(body):]
+    return out
+
+
+def physical_lines(text):
+    """The physical lines of a text file holding `text`: ended by LF, CRLF or a lone CR (what a text-mode handle with
+    universal newlines yields), terminators dropped; a final terminator does not start another line."""
+    import re
+    parts = re.split(r"\r\n|\r|\n", text)
+    if parts and parts[-1] == "":
+        parts.pop()
+    return parts
+
+
+def text_of(rng, lines, terms=None, final=None):
+    """The text of a file whose lines are `lines` (own terminators kept as content of the text), line k ended by a
+    terminator drawn from `terms` (default: one style for the whole file, sometimes mixed); the last line is left
+    unterminated when `final` is False (default: sometimes)."""
+    terms = terms or rng.choice([["\n"], ["\n"], ["\r\n"], ["\r"], TERMINATORS])
+    final = (rng.random() < 0.8) if final is None else final
+    out = []
+    for k, l in enumerate(lines):
+        out.append(l)
+        if k < len(lines) - 1 or final:
+            out.append(rng.choice(terms))
+    return "".join(out)
+
+
+def with_empty_lines(rng, lines, p=0.3):
+    """`lines` with empty lines inserted (anywhere: among the pragmas, before / after the column line, in the body, at the end)."""
+    out = []
+    for l in lines:
+        while rng.random() < p * 0.5:
+            out.append("")
+        out.append(l)
+    while rng.random() < p:
+        out.append("")
+    return out
+
+
+def file_encoding():
+    import locale
+    import sys
+    return "utf-8" if sys.flags.utf8_mode else locale.getpreferredencoding(False)
+
+
+def encodable(text):
+    try:
+        text.encode(file_encoding())
+        return True
+    except UnicodeError:
+        return False
+
+
+def write_file(tmp, text, gz, name="case"):
+    """Writes `text` byte for byte (no newline translation) to a plain or gzip file in directory `tmp`; the path."""
+    import gzip
+    import os
+    path = os.path.join(tmp, name + (".maf.gz" if gz else ".maf"))
+    data = text.encode(file_encoding())
+    with (gzip.open(path, "wb") if gz else open(path, "wb")) as h:
+        h.write(data)
+    return path
+
+
+def given_scheme(req):
+    if req.get("given_norestrict") is not None:
+        from maflib.schemes import NoRestrictionsScheme
+        return NoRestrictionsScheme(column_names=req["given_norestrict"])
+    return impl.scheme_by_annotation(req["given"]) if req.get("given") else None
+
+
+def open_by(via, req, tmp):
+    """A MafReader for the request by factory `via`: "list" / "iter" = MafReader(lines=<list / one-shot iterator of req["lines"]>),
+    "path" / "gz" = MafReader.reader_from(<plain / gzip file holding req["text"]>).  Raises what the library raises."""
+    from maflib.reader import MafReader
+    mode, given = impl.MODES[req.get("mode")], given_scheme(req)
+    if via in ("path", "gz"):
+        return MafReader.reader_from(write_file(tmp, req["text"], via == "gz"), validation_stringency=mode, scheme=given)
+    lines = list(req["lines"])
+    return MafReader(lines=lines if via == "list" else iter(lines), validation_stringency=mode, scheme=given)
+
+
+def consume(reader, style, each):
+    """Consumes the reader to the end in one of CONSUME_STYLES, calling each(record): "for" = a for loop over the reader,
+    "iter" = explicit iter(reader) then next() on it, "next" = next(reader) on the reader itself."""
+    if style == "for":
+        for rec in reader:
+            each(rec)
+    else:
+        it = iter(reader) if style == "iter" else reader
+        while True:
+            try:
+                rec = next(it)
+            except StopIteration:
+                break
+            each(rec)
+
+
+def reader_open(req):
+    """impl.op_reader_run's answer (same keys, comparable with the model's reader.run answer on content_lines(req)) for a
+    reader opened by req["via"] and consumed in style req["consume"]."""
+    import shutil
+    import tempfile
+    from .common import exc_name
+    via = req.get("via", "list")
+    tmp = tempfile.mkdtemp(prefix="verif_rd_") if via in ("path", "gz") else None
+    reader = None
+    try:
+        with impl.LogCapture() as lc:
+            try:
+                reader = open_by(via, req, tmp)
+            except Exception as e:  # noqa
+                return {"init_exc": exc_name(e)}
+            out = {"header": impl.header_json(reader.header()), "init_errors": impl.errs_json(reader.validation_errors)}
+            sch = reader.scheme()
+            out["scheme"] = None if sch is None else {"annotation": sch.annotation_spec(), "names": sch.column_names()}
+            recs = []
+            exc = None
+            try:
+                consume(reader, req.get("consume", "for"), lambda rec: recs.append(impl.rec_summary(rec)))
+            except Exception as e:  # noqa
+                exc = exc_name(e)
+            out["records"] = recs
+            out["iter_exc"] = exc
+            out["errors"] = impl.errs_json(reader.validation_errors)
+        out["logs"] = lc.parsed()
+        return out
+    finally:
+        try:
+            if reader is not None:
+                reader.close()
+        except Exception:  # noqa
+            pass
+        if tmp:
+            shutil.rmtree(tmp, ignore_errors=True)
+
+
+def content_lines(req):
+    """The lines the reader of the request is given: the physical lines of the file's text for the path-based
+    factories, the lines themselves otherwise."""
+    return physical_lines(req["text"]) if req.get("via") in ("path", "gz") else list(req["lines"])
+
+
+def rerun_in_fresh_process(pid, failure, input_keys):
+    """A stored failure whose input passes when evaluated on its own may depend on what the process did before (state the
+    library keeps between calls).  Re-runs the recorded generation (tier and seed in failure["_found"]; plain, then with the
+    source-change escalation of case counts) in a fresh interpreter and returns the failures of the same kind on the same
+    input (the stored one or the one it was shrunk from), [] when there is none."""
+    import json
+    import subprocess
+    import sys
+    from .common import VERIF
+    found = failure.get("_found") or {"tier": "quick", "seed": 0}
+    cands = [failure] + ([failure["_unshrunk"]] if isinstance(failure.get("_unshrunk"), dict) else [])
+    targets = [{k: c.get(k) for k in ("kind",) + tuple(input_keys)} for c in cands]
+    code = ("import sys, json, importlib\n"
+            "sys.path.insert(0, %r)\n"
+            "from verif import runner\n"
+            "spec = json.loads(sys.stdin.read())\n"
+            "mod = importlib.import_module('verif.props.' + spec['pid'].lower())\n"
+            "ctx = runner.Ctx(spec['pid'], spec['tier'], spec['seed'])\n"
+            "ctx.driver_ok = True\n"
+            "ctx.escalate = spec['escalate']\n"
+            "out = mod.run(ctx)\n"
+            "keys = spec['keys']\n"
+            "hit = [f for f in out.failures if any(all(f.get(k) == t.get(k) for k in keys) for t in spec['targets'])]\n"
+            "sys.stdout.write('\\n@@RESULT@@' + json.dumps(hit, default=str))\n") % VERIF
+    for escalate in ((False,) if found["tier"] == "thorough" else (False, True)):
+        spec = {"pid": pid, "tier": found["tier"], "seed": found["seed"], "escalate": escalate,
+                "keys": ["kind"] + list(input_keys), "targets": json.loads(json.dumps(targets, default=str))}
+        p = subprocess.run([sys.executable, "-c", code], input=json.dumps(spec).encode("utf-8"), stdout=subprocess.PIPE,
+                           stderr=subprocess.PIPE, cwd=VERIF)
+        text = p.stdout.decode("utf-8", "replace")
+        if p.returncode != 0 or "@@RESULT@@" not in text:
+            print("re-run of the recorded generation failed: %s" % p.stderr.decode("utf-8", "replace")[-300:])
+            return []
+        hit = json.loads(text.split("@@RESULT@@", 1)[1])
+        print("re-run of the recorded generation (%s tier, seed %s%s) in a fresh process: %d failure(s) of this kind on this input" % (
+            found["tier"], found["seed"], ", escalated case counts" if escalate else "", len(hit)))
+        if hit:
+            return hit
+    return []
